@@ -482,13 +482,13 @@ def hmc(
     )
 
     # Helper functions for momentum
-    def sample_momentum(_):
-        """Sample momentum with same structure as reference value."""
-        return normal.sample(0.0, 1.0)
+    def sample_momentum(ref):
+        """Sample momentum with same structure and shape as reference value."""
+        return normal.sample(jnp.zeros_like(ref), 1.0)
 
     def assess_momentum(momentum_val):
         """Compute log probability of momentum (standard normal)."""
-        return normal.logpdf(momentum_val, 0.0, 1.0)
+        return jnp.sum(normal.logpdf(momentum_val, 0.0, 1.0))
 
     # Initial model score (negative potential energy)
     prev_model_score = log_density_wrt_selected(selected_choices)
